@@ -81,6 +81,16 @@ Res0OK(e) ==
   /\ e.r = E_SUCCESS /\ e.cnt = 122 /\ Len(e.o) = 122
   /\ {e.o[i] : i \in 1..122} = {WordOf([r |-> 0, b |-> b, d |-> <<>>]) : b \in 0..121}
 
+\* C03: cellToLatLng(h) succeeds and latLngToCell of that centre at h's resolution returns h
+RoundTripOK(e) == e.rc = E_SUCCESS /\ e.rl = E_SUCCESS /\ e.o = e.h
+\* complete enumeration of one base cell at one resolution (the driver lists cellToChildren of the res-0 cell):
+\* n distinct valid cells of that resolution and base cell, n = closed-form count
+EnumBaseOK(e) ==
+  LET bcw == WordOf([r |-> 0, b |-> e.bc, d |-> <<>>]) IN
+  /\ e.h0 = bcw /\ e.n.s = 0
+  /\ e.n.l = ChildCount(CellOf(bcw), e.res)
+  /\ e.distinct = 1 /\ e.allvalid = 1
+
 \* isPentagon on a valid cell = IsPentC
 IsPentOK(e) == (e.o = 1) = IsPentC(CellOf(e.h))
 
@@ -97,6 +107,8 @@ EvOK(e) ==
        [] e.e = "getPentagons"        -> PentagonsOK(e)
        [] e.e = "getRes0Cells"        -> Res0OK(e)
        [] e.e = "isPentagon"          -> IsPentOK(e)
+       [] e.e = "roundtrip"           -> RoundTripOK(e)
+       [] e.e = "enumBase"            -> EnumBaseOK(e)
        [] OTHER -> FALSE
 Init == l = 1
 \* (the IF makes TLC evaluate EvOK as a plain expression instead of expanding it as an action)
